@@ -27,6 +27,10 @@ from ..filters import ContentFilter
 
 # Real Unix newline - \n without \r before it
 _UNIX_NL_RE = re.compile(rb"(?<!\r)\n")
+# Real DOS newline - \r\n without another \r before it. "\r\r\n" is left alone
+# by both converters, so that converting to crlf and converting to lf stay
+# inverses of each other on content that is already in either form.
+_DOS_NL_RE = re.compile(rb"(?<!\r)\r\n")
 
 
 def _to_lf_converter(chunks, context=None):
@@ -35,7 +39,7 @@ def _to_lf_converter(chunks, context=None):
     if b"\x00" in content:
         return [content]
     else:
-        return [content.replace(b"\r\n", b"\n")]
+        return [_DOS_NL_RE.sub(b"\n", content)]
 
 
 def _to_crlf_converter(chunks, context=None):
